@@ -23,7 +23,7 @@ ASSUMPTIONS = ['get_next_entry behaves as its spec entries_spec for the default 
 
 PARAMS = [{'mb': 40, 'size': 64}, {'mb': 16, 'size': 20, 'ri': 1.0}, {'mb': 64, 'size': 1024, 'hash': 'shortmd5'},
           {'mb': 40, 'size': 64, 'r': 0.5, 'r1': 0.5, 'r2': 0.3, 'r3': 0.3, 'hash': 'minisha256'}, {'mb': 255, 'size': 1024}]
-KINDS = ['rand_few', 'rand_many', 'zero', 'marker_over', 'marker_del', 'delim', 'size', 'garbage', 'insert', 'delete', 'short_track', 'empty']
+KINDS = ['rand_few', 'rand_many', 'zero', 'marker_over', 'marker_del', 'delim', 'size', 'garbage', 'insert', 'delete', 'short_track', 'empty', 'clone']
 
 
 def rb(rng, n):
@@ -84,6 +84,12 @@ def damage(rng, db, ents, v, kind):
         del x[hi - n:hi]
     elif kind == 'empty':
         del x[s:hi]
+    elif kind == 'clone':
+        # the victim's bytes (after its marker) are overwritten with the bytes found at the same offsets of ANOTHER entry: the victim
+        # now decodes to that entry's path and size; the other entry itself is untouched and must still be processed as before
+        o = ents[(v + 1) % len(ents)]
+        L = min(hi - s, o['e'] - o['s'])
+        x[s:s + L] = db[o['s']:o['s'] + L]
     return bytes(x)
 
 
@@ -290,4 +296,12 @@ def shrink(ctx, case):
 def classify(case, detail):
     if isinstance(case, dict) and case.get('tool') == 'whole' and '--ignore_size' in case.get('extra', []):
         return 'C08-whole-ignore-size-extrapolated-rate'
+    if isinstance(case, dict) and case.get('kind') == 'clone' and isinstance(detail, dict):
+        # open finding: an entry overwritten with the bytes of ANOTHER entry is a well-formed entry for that other file; the tool
+        # processes that file a second time with the (cut) cloned track.  Narrow: every intact entry is still treated as with the
+        # pristine ecc file (that is checked first and reported under another 'why'); what differs is the other file's output /
+        # the counters.
+        why = str(detail.get('why', ''))
+        if why == 'output of another file differs' or why.startswith('counters') or why.startswith('exit'):
+            return 'C08-entry-cloned-from-another'
     return None
